@@ -7,7 +7,7 @@
   evaluation made by search::run through the caching proxy equals direct evaluation.
 
   Atoms (what the translator emits them for is listed in tools/translate_cache.py):
-    change   the training set may be modified
+    change   the training set is modified
     clear    clear() on the training evaluator
     eval     the training evaluator is called
     load     load() on the training evaluator
@@ -47,21 +47,40 @@ inductive Trace (vs : VsM → Eff) : Eff → List Atom → Prop where
 
 /-! ### the discipline on atom sequences
 
-  State: `stale` — the training set changed and the training evaluator has not been cleared since.
-  (Conservative: a change counts even while the cache is still empty.)  An evaluation while stale is
-  the failure the property forbids. -/
+  State of the training evaluator's cache with respect to the training set:
+    fresh     nothing cached (since construction or the last clear())
+    current   what is cached was computed on the present training set
+    stale     the training set changed while something was cached, and no clear() since
+  A change while the cache is `fresh` is harmless.  An evaluation while `stale` is the failure the
+  property forbids. -/
 
-def stepA (s : Bool) : Atom → Option Bool
-  | .change => some true
-  | .clear => some false
-  | .eval => if s then none else some false
-  | .load => some s
+inductive CS where
+  | fresh | current | stale
+deriving DecidableEq, Repr
 
-def runA (s : Bool) : List Atom → Option Bool
+def CS.rank : CS → Nat
+  | .fresh => 0
+  | .current => 1
+  | .stale => 2
+
+/-- `a ⊑ b`: the checker over-approximates upwards -/
+def le (a b : CS) : Prop := a.rank ≤ b.rank
+
+def CS.max (a b : CS) : CS := if a.rank ≤ b.rank then b else a
+
+def stepA (s : CS) : Atom → Option CS
+  | .change => some (match s with | .fresh => .fresh | _ => .stale)
+  | .clear => some .fresh
+  | .eval => match s with
+    | .stale => none
+    | _ => some .current
+  | .load => some (match s with | .fresh => .current | s => s)
+
+def runA (s : CS) : List Atom → Option CS
   | [] => some s
   | a :: t => (stepA s a).bind fun s' => runA s' t
 
-theorem runA_append (s : Bool) (t1 t2 : List Atom) :
+theorem runA_append (s : CS) (t1 t2 : List Atom) :
     runA s (t1 ++ t2) = (runA s t1).bind fun s' => runA s' t2 := by
   induction t1 generalizing s with
   | nil => simp [runA]
@@ -71,82 +90,77 @@ theorem runA_append (s : Bool) (t1 t2 : List Atom) :
     | none => rfl
     | some s' => simpa using ih s'
 
-/-! ### the checker: "may be stale" as an over-approximation (`false` ⊑ `true`), `none` = an evaluation
-    may meet stale values -/
+/-! ### the checker: the highest state that may be reached; `none` = an evaluation may meet stale values -/
 
-def post (sum : VsM → Bool → Option Bool) : Eff → Bool → Option Bool
+/-- least post-fixpoint of `f` above `s` on the three-element chain (fuel 3 is enough) -/
+def iter (f : CS → Option CS) : Nat → CS → Option CS
+  | 0, _ => none
+  | n + 1, s =>
+    match f s with
+    | none => none
+    | some s1 => if s1.rank ≤ s.rank then some s else iter f n s1
+
+def post (sum : VsM → CS → Option CS) : Eff → CS → Option CS
   | .skip, s => some s
   | .atom a, s => stepA s a
   | .callVs m, s => sum m s
   | .seq a b, s => (post sum a s).bind (post sum b)
   | .branch a b, s =>
     match post sum a s, post sum b s with
-    | some x, some y => some (x || y)
+    | some x, some y => some (x.max y)
     | _, _ => none
-  | .loop b, s =>
-    match post sum b s with
-    | none => none
-    | some s1 =>
-      if s1 = false ∨ s = true then some s
-      else match post sum b true with
-        | some _ => some true
-        | none => none
+  | .loop b, s => iter (post sum b) 3 s
 
-/-- `a ⊑ b` on staleness -/
-def le (a b : Bool) : Prop := a = true → b = true
-
-theorem le_refl (a : Bool) : le a a := fun h => h
-theorem le_true (a : Bool) : le a true := fun _ => rfl
-theorem le_trans {a b c : Bool} (h1 : le a b) (h2 : le b c) : le a c := fun h => h2 (h1 h)
+theorem le_refl (a : CS) : le a a := Nat.le_refl _
+theorem le_trans {a b c : CS} (h1 : le a b) (h2 : le b c) : le a c := Nat.le_trans h1 h2
+theorem le_max_left (a b : CS) : le a (a.max b) := by
+  simp only [le, CS.max]; split <;> omega
+theorem le_max_right (a b : CS) : le b (a.max b) := by
+  simp only [le, CS.max]; split <;> omega
 
 /-- what a sound summary of a callee says -/
-def SoundFor (vs : VsM → Eff) (e : Eff) (s : Bool) (r : Bool) : Prop :=
+def SoundFor (vs : VsM → Eff) (e : Eff) (s : CS) (r : CS) : Prop :=
   ∀ t, Trace vs e t → ∀ s0, le s0 s → ∃ r0, runA s0 t = some r0 ∧ le r0 r
 
-theorem stepA_mono (a : Atom) (s r s0 : Bool) (h : stepA s a = some r) (hs : le s0 s) :
+theorem stepA_mono (a : Atom) (s r s0 : CS) (h : stepA s a = some r) (hs : le s0 s) :
     ∃ r0, stepA s0 a = some r0 ∧ le r0 r := by
-  cases a <;> simp only [stepA] at h ⊢
-  · exact ⟨true, rfl, by cases h; exact le_refl _⟩
-  · exact ⟨false, rfl, by cases h; exact le_refl _⟩
-  · cases s with
-    | true => simp at h
-    | false =>
-      have : s0 = false := by cases s0 with
-        | false => rfl
-        | true => exact absurd (hs rfl) (by simp)
-      subst this
-      exact ⟨false, by simp, by simp at h; subst h; exact le_refl _⟩
-  · exact ⟨s0, rfl, by cases h; exact hs⟩
+  cases a <;> cases s <;> cases s0 <;> simp [stepA, le, CS.rank] at h hs ⊢ <;> subst h <;> simp
 
-/-- facts about the result of the checker on a loop: it is a post-fixpoint above the entry state -/
-theorem post_loop {sum : VsM → Bool → Option Bool} {b : Eff} {s r : Bool} (h : post sum (.loop b) s = some r) :
+/-- the result of `iter` is a post-fixpoint above the entry state -/
+theorem iter_spec (f : CS → Option CS) (n : Nat) (s r : CS) (h : iter f n s = some r) :
+    le s r ∧ ∃ r', f r = some r' ∧ le r' r := by
+  induction n generalizing s with
+  | zero => simp [iter] at h
+  | succ n ih =>
+    simp only [iter] at h
+    cases h1 : f s with
+    | none => simp [h1] at h
+    | some s1 =>
+      simp only [h1] at h
+      by_cases hc : s1.rank ≤ s.rank
+      · simp only [hc, if_true, Option.some.injEq] at h
+        subst h
+        exact ⟨le_refl _, s1, h1, hc⟩
+      · simp only [hc, if_false] at h
+        obtain ⟨h2, h3⟩ := ih s1 h
+        exact ⟨by simp only [le] at h2 ⊢; omega, h3⟩
+
+theorem iter_fix (f : CS → Option CS) (n : Nat) (r r' : CS) (h : f r = some r') (hr : le r' r) :
+    iter f (n + 1) r = some r := by
+  simp only [iter, h]
+  simp only [le] at hr
+  simp [hr]
+
+theorem post_loop {sum : VsM → CS → Option CS} {b : Eff} {s r : CS} (h : post sum (.loop b) s = some r) :
     le s r ∧ (∃ r', post sum b r = some r' ∧ le r' r) ∧ post sum (.loop b) r = some r := by
   simp only [post] at h
-  cases h1 : post sum b s with
-  | none => simp [h1] at h
-  | some s1 =>
-    simp only [h1] at h
-    by_cases hc : s1 = false ∨ s = true
-    · simp only [hc, if_true, Option.some.injEq] at h
-      subst h
-      refine ⟨le_refl _, ⟨s1, h1, ?_⟩, ?_⟩
-      · rcases hc with h2 | h2
-        · subst h2; intro h3; cases h3
-        · subst h2; exact le_true _
-      · simp only [post, h1, hc, if_true]
-    · simp only [hc, if_false] at h
-      cases h2 : post sum b true with
-      | none => simp [h2] at h
-      | some x =>
-        simp only [h2, Option.some.injEq] at h
-        subst h
-        refine ⟨le_true _, ⟨x, h2, le_true _⟩, ?_⟩
-        simp [post, h2]
+  obtain ⟨h1, r', h2, h3⟩ := iter_spec _ _ _ _ h
+  exact ⟨h1, ⟨r', h2, h3⟩, by simp only [post]; exact iter_fix _ 2 r r' h2 h3⟩
 
-/-- **post_sound** — if the checker accepts a skeleton from (abstract) staleness `s` with result `r`,
-    then every trace of the skeleton, run from any state below `s`, never evaluates while stale and
-    ends below `r`.  `sum` must be sound for the strategy steps. -/
-theorem post_sound {vs : VsM → Eff} {sum : VsM → Bool → Option Bool}
+/-- **post_sound** — if the checker accepts a skeleton from (abstract) state `s` with result `r`, then
+    every trace of the skeleton, run from any state below `s`, never evaluates while stale and ends
+    below `r`.  `sum` must be sound for the strategy steps. -/
+theorem post_sound {vs : VsM → Eff} {sum : VsM → CS → Option CS}
     (hsum : ∀ m s r, sum m s = some r → SoundFor vs (vs m) s r)
     {e : Eff} {t : List Atom} (ht : Trace vs e t) :
     ∀ s r, post sum e s = some r → ∀ s0, le s0 s → ∃ r0, runA s0 t = some r0 ∧ le r0 r := by
@@ -181,7 +195,7 @@ theorem post_sound {vs : VsM → Eff} {sum : VsM → Bool → Option Bool}
     · rename_i x y hx hy
       simp only [Option.some.injEq] at h
       obtain ⟨r0, e0, l0⟩ := ih s x hx s0 hs
-      exact ⟨r0, e0, fun h3 => by rw [← h, l0 h3]; rfl⟩
+      exact ⟨r0, e0, h ▸ le_trans l0 (le_max_left x y)⟩
     · cases h
   | right _ ih =>
     intro s r h s0 hs
@@ -190,7 +204,7 @@ theorem post_sound {vs : VsM → Eff} {sum : VsM → Bool → Option Bool}
     · rename_i x y hx hy
       simp only [Option.some.injEq] at h
       obtain ⟨r0, e0, l0⟩ := ih s y hy s0 hs
-      exact ⟨r0, e0, fun h3 => by rw [← h, l0 h3]; simp⟩
+      exact ⟨r0, e0, h ▸ le_trans l0 (le_max_right x y)⟩
     · cases h
   | loopNil =>
     intro s r h s0 hs
@@ -203,9 +217,9 @@ theorem post_sound {vs : VsM → Eff} {sum : VsM → Bool → Option Bool}
     exact ⟨r2, by simp [runA_append, e1, e2], l2⟩
 
 /-- a summary that accepts nothing (for skeletons that must not call the strategy themselves) -/
-def noCalls : VsM → Bool → Option Bool := fun _ _ => none
+def noCalls : VsM → CS → Option CS := fun _ _ => none
 
-theorem post_sound_flat {vs : VsM → Eff} {e : Eff} {s r : Bool} (h : post noCalls e s = some r) :
+theorem post_sound_flat {vs : VsM → Eff} {e : Eff} {s r : CS} (h : post noCalls e s = some r) :
     SoundFor vs e s r := by
   intro t ht s0 hs
   exact post_sound (sum := noCalls) (fun m s r h => by simp [noCalls] at h) ht s r h s0 hs
@@ -224,37 +238,54 @@ inductive Realizes : List Atom → List (Ev Ind Data) → Prop where
   | eval {t es} (i : Ind) : Realizes t es → Realizes (.eval :: t) (.eval i :: es)
   | load {t es} : Realizes t es → Realizes (.load :: t) (.reload :: es)
 
+/-- what a state says about `last` (the data version the cached values of this epoch were computed on) -/
+def Agrees (s : CS) (d : Data) (last : Option Data) : Prop :=
+  match s with
+  | .fresh => last = none
+  | .current => last = none ∨ last = some d
+  | .stale => True
+
 /-- a trace that never evaluates while stale is, however realised, a disciplined history -/
 theorem disciplined_of_runA (sig : Ind → Key) (ev : Data → Ind → Fit)
     (hne : ∀ i, (sig i).empty = false) (hf : ∀ d i j, sig i = sig j → ev d i = ev d j)
     {t : List Atom} {es : List (Ev Ind Data)} (hr : Realizes t es) :
-    ∀ (s : Bool) (d : Data) (last : Option Data) (seen : List Ind),
-      (runA s t).isSome → (s = false → last = none ∨ last = some d) → Disciplined sig ev d last seen es := by
+    ∀ (s : CS) (d : Data) (last : Option Data) (seen : List Ind),
+      (runA s t).isSome → Agrees s d last → Disciplined sig ev d last seen es := by
   induction hr with
   | nil => intro s d last seen _ _; trivial
   | change d' _ ih =>
-    intro s d last seen h _
+    intro s d last seen h hinv
     simp only [runA, stepA, Option.bind_some] at h
     simp only [Disciplined]
-    exact ih true d' last seen h (fun h => by cases h)
+    cases s with
+    | fresh => exact ih .fresh d' last seen h hinv
+    | current => exact ih .stale d' last seen h trivial
+    | stale => exact ih .stale d' last seen h trivial
   | clear _ ih =>
     intro s d last seen h _
     simp only [runA, stepA, Option.bind_some] at h
     simp only [Disciplined]
-    exact ih false d none [] h (fun _ => Or.inl rfl)
+    exact ih .fresh d none [] h rfl
   | eval i _ ih =>
     intro s d last seen h hinv
     cases s with
-    | true => simp [runA, stepA] at h
-    | false =>
-      simp only [runA, stepA, Bool.false_eq_true, if_false, Option.bind_some] at h
+    | stale => simp [runA, stepA] at h
+    | fresh =>
+      simp only [runA, stepA, Option.bind_some] at h
       simp only [Disciplined]
-      exact ⟨hinv rfl, hne i, fun j _ hj => hf d j i hj, ih false d (some d) (i :: seen) h (fun _ => Or.inr rfl)⟩
+      exact ⟨Or.inl hinv, hne i, fun j _ hj => hf d j i hj, ih .current d (some d) (i :: seen) h (Or.inr rfl)⟩
+    | current =>
+      simp only [runA, stepA, Option.bind_some] at h
+      simp only [Disciplined]
+      exact ⟨hinv, hne i, fun j _ hj => hf d j i hj, ih .current d (some d) (i :: seen) h (Or.inr rfl)⟩
   | load _ ih =>
     intro s d last seen h hinv
     simp only [runA, stepA, Option.bind_some] at h
     simp only [Disciplined]
-    exact ih s d last seen h hinv
+    cases s with
+    | fresh => exact ih .current d last seen h (Or.inl hinv)
+    | current => exact ih .current d last seen h hinv
+    | stale => exact ih .stale d last seen h trivial
 
 end realize
 
@@ -267,10 +298,10 @@ def stepOf (st : String × Eff × Eff × Eff) : VsM → Eff
   | .close => st.2.2.2
 
 /-- the summary of a strategy: its steps checked on their own (they must not call the strategy) -/
-def sumOf (st : String × Eff × Eff × Eff) : VsM → Bool → Option Bool :=
+def sumOf (st : String × Eff × Eff × Eff) : VsM → CS → Option CS :=
   fun m s => post noCalls (stepOf st m) s
 
-theorem sumOf_sound (st : String × Eff × Eff × Eff) (m : VsM) (s r : Bool) (h : sumOf st m s = some r) :
+theorem sumOf_sound (st : String × Eff × Eff × Eff) (m : VsM) (s r : CS) (h : sumOf st m s = some r) :
     SoundFor (stepOf st) (stepOf st m) s r :=
   post_sound_flat h
 
@@ -354,8 +385,15 @@ theorem realizes_exists {Ind Data : Type} (i : Ind) (d : Data) (t : List Atom) :
     · exact ⟨_, .eval i h⟩
     · exact ⟨_, .load h⟩
 
-/-- the whole check of one strategy under a driver skeleton -/
+/-- the whole check of one strategy under a driver skeleton: from a fresh cache no evaluation can meet
+    stale values (whatever state the run ends in) -/
 def safeUnder (run : Eff) (st : String × Eff × Eff × Eff) : Bool :=
-  post (sumOf st) run false == some false
+  (post (sumOf st) run .fresh).isSome
+
+/-- a strategy step keeps an up-to-date cache up to date: entered `fresh` it ends `fresh`, entered
+    `current` it does not end `stale` -/
+def stepKeepsCurrent (st : String × Eff × Eff × Eff) (m : VsM) : Bool :=
+  sumOf st m .fresh == some .fresh &&
+    (sumOf st m .current == some .fresh || sumOf st m .current == some .current)
 
 end Vita.C04.Sites
